@@ -365,6 +365,7 @@ func TestVerifC01Quorum(t *testing.T) {
 	}
 	// phase 2: sequences with duplicates, equivocation and peer claims
 	maxLen := vr.Pick(5, 6)
+	mineSeq := 0
 	for _, pw := range [][]int64{{1, 1, 1}, {1, 1, 1, 1}, {2, 1, 1}} {
 		n := len(pw)
 		var alpha []c01qOp
@@ -392,7 +393,8 @@ func TestVerifC01Quorum(t *testing.T) {
 				if !r.Mine(ci) {
 					return
 				}
-				if ci%4096 == 0 && r.Deadline("C01 quorum sequences") {
+				mineSeq++
+				if mineSeq%1024 == 0 && r.Deadline("C01 quorum sequences") {
 					stop = true
 					return
 				}
